@@ -1279,3 +1279,227 @@ Section Combine.
       destruct a, b; cbn [andb negb]; close_case fA fB nm.
   Qed.
 End Combine.
+
+(* ---------- Relation.Join ---------- *)
+
+Definition wf_jset (s : jset) : Prop := match s with JSRel r => wf_rel r | _ => True end.
+
+(* the denotation of rows stored under a heading with the identity projector *)
+Definition gen (attrs : list name) (rows : list row) : list val :=
+  vsort (map (row_tuple attrs (seq 0 (length attrs))) rows).
+
+Lemma row_tuple_id attrs (v : row) : length v = length attrs -> row_tuple attrs (seq 0 (length attrs)) v = mktup (combine attrs v).
+Proof. intros H. unfold row_tuple. rewrite <- H, pick_seq_id. reflexivity. Qed.
+
+Lemma name_in_ext n l l' : (forall x, In x l <-> In x l') -> name_in n l = name_in n l'.
+Proof.
+  intros H. destruct (name_in n l') eqn:E.
+  - apply name_in_iff. apply H. apply name_in_iff, E.
+  - apply name_in_false. intros Hin. apply H in Hin. apply name_in_iff in Hin. congruence.
+Qed.
+
+Lemma nodup_app {X} (a b : list X) : NoDup a -> NoDup b -> (forall x, In x a -> In x b -> False) -> NoDup (a ++ b).
+Proof.
+  intros Ha Hb H. induction Ha as [|x a Hx Ha IH]; [exact Hb|].
+  cbn [app]. constructor.
+  - rewrite in_app_iff. intros [H1|H1]; [contradiction | apply (H x (or_introl eq_refl) H1)].
+  - apply IH. intros y H1 H2. apply (H y (or_intror H1) H2).
+Qed.
+
+Lemma name_eqb_sym_false a b : name_eqb a b = false -> name_eqb b a = false.
+Proof.
+  intros H. destruct (name_eqb b a) eqn:E; [|reflexivity]. apply name_eqb_eq in E. subst. rewrite name_eqb_refl in H. discriminate.
+Qed.
+
+Lemma finish_join_den lo ro rows :
+  NoDup (lo ++ ro) -> width_is rows (length (lo ++ ro)) -> NoDup rows -> rows <> [] ->
+  den (finish_join lo ro rows) = VSet (gen (lo ++ ro) rows) /\ wf_jset (finish_join lo ro rows).
+Proof.
+  intros Hnd Hw Hndr Hne. unfold finish_join. rewrite <- app_length.
+  set (attrs := lo ++ ro) in *.
+  assert (Plain : den (JSRel {| r_attrs := attrs; r_p := seq 0 (length attrs); r_rows := rows |}) = VSet (gen attrs rows)
+                  /\ wf_jset (JSRel {| r_attrs := attrs; r_p := seq 0 (length attrs); r_rows := rows |})).
+  { split; [reflexivity|]. cbn [wf_jset]. unfold wf_rel. cbn [r_attrs r_p r_rows].
+    repeat split; try assumption.
+    - apply seq_length.
+    - apply seq_NoDup.
+    - intros i Hi. apply in_seq in Hi. lia. }
+  destruct attrs as [|n0 [|n1 [|n2 attrs']]] eqn:Ea; try exact Plain.
+  destruct (name_eqb n1 n_at) eqn:E1.
+  - (* @ is the second stored column *)
+    cbn [nth]. destruct (name_eqb n1 n_at && is_sugar_name n0) eqn:E2; [|exact Plain].
+    split; [|exact I]. cbn [den]. unfold mkset, gen. f_equal. f_equal. apply map_ext_in. intros v Hv.
+    specialize (Hw v Hv). cbn [length] in Hw. destruct v as [|x0 [|x1 [|x2 v']]]; try discriminate.
+    apply name_eqb_eq in E1. subst n1.
+    assert (Hne01 : name_eqb n0 n_at = false).
+    { destruct (name_eqb n0 n_at) eqn:E; [|reflexivity]. apply name_eqb_eq in E. subst n0.
+      inversion Hnd as [|? ? H1 _]; subst. exfalso. apply H1. left; reflexivity. }
+    unfold row_tuple, mktup. cbn [length seq pick map nth combine]. f_equal.
+    apply asorted_ext; [apply asort_sorted | apply asort_sorted|].
+    intros n. rewrite !tget_asort, !tget_cons.
+    destruct (name_eqb n n_at) eqn:En; [|reflexivity].
+    apply name_eqb_eq in En. subst n. rewrite name_eqb_sym_false by exact Hne01. reflexivity.
+  - cbn [nth]. destruct (name_eqb n0 n_at && is_sugar_name n1) eqn:E2; [|exact Plain].
+    split; [|exact I]. cbn [den]. unfold mkset, gen. f_equal. f_equal. apply map_ext_in. intros v Hv.
+    specialize (Hw v Hv). cbn [length] in Hw. destruct v as [|x0 [|x1 [|x2 v']]]; try discriminate.
+    apply andb_true_iff in E2 as [E2 _]. apply name_eqb_eq in E2. subst n0.
+    unfold row_tuple. cbn [length seq pick map nth combine]. reflexivity.
+Qed.
+
+Section Main.
+  Variables (op : joinop) (a b : relation).
+  Hypothesis Hwa : wf_rel a.
+  Hypothesis Hwb : wf_rel b.
+  Let A := r_attrs a.
+  Let B := r_attrs b.
+  Let common := ns_intersect A B.
+  Let lo := fst (partitionNames op A B common).
+  Let ro := snd (partitionNames op A B common).
+  Let common' := filter (fun n => name_in n (nsort B)) (nsort A).
+
+  Lemma common'_in nm : name_in nm common' = name_in nm A && name_in nm B.
+  Proof.
+    unfold common'. rewrite name_in_filter.
+    rewrite (name_in_ext nm (nsort A) A (fun x => nsort_in x A)), (name_in_ext nm (nsort B) B (fun x => nsort_in x B)).
+    reflexivity.
+  Qed.
+
+  Lemma common_in nm : In nm common <-> In nm A /\ In nm B.
+  Proof. apply ns_intersect_in. Qed.
+
+  (* rows t of a and u of b: agreement of their tuples on the common attributes is equality of the key cells *)
+  Lemma agree_keys LK RK (t u : row) tA uB :
+    Forall2 (col a) common LK -> Forall2 (col b) common RK ->
+    (forall n, tget n tA = tget n (ra a t)) -> (forall n, tget n uB = tget n (ra b u)) ->
+    (agree common' tA uB = true <-> pick LK t = pick RK u).
+  Proof.
+    intros FL FR HtA HuB.
+    rewrite (cells_eq _ _ common _ _ (F2_cells a t common LK Hwa FL) (F2_cells b u common RK Hwb FR)).
+    rewrite agree_spec. split.
+    - intros H nm Hnm. apply common_in in Hnm as [H1 H2].
+      assert (Hc : In nm common') by (apply name_in_iff; rewrite common'_in; apply andb_true_iff; split; apply name_in_iff; assumption).
+      destruct (H nm Hc) as (x & E1 & E2). rewrite <- HtA, <- HuB. congruence.
+    - intros H nm Hnm. apply name_in_iff in Hnm. rewrite common'_in in Hnm. apply andb_true_iff in Hnm as [H1 H2].
+      apply name_in_iff in H1, H2.
+      destruct (col_exists a Hwa nm H1) as (c & Hc). pose proof (col_tget a Hwa nm c t Hc) as E.
+      exists (nth c t cell0). rewrite HtA, HuB. split; [exact E|]. rewrite <- (H nm); [exact E | apply common_in; split; assumption].
+  Qed.
+
+  Theorem positional_join_refines_spec :
+    exists s, join_rel op a b = JOk s /\ join_data op (abs a) (abs b) = Ok (den s) /\ wf_jset s.
+  Proof.
+    pose proof Hwa as (HndA & HlenA & HndpA & HrA & HwA & HndrA & HneA).
+    pose proof Hwb as (HndB & HlenB & HndpB & HrB & HwB & HndrB & HneB).
+    pose proof (partition_good op A B HndA HndB) as GP. cbv zeta in GP. fold common lo ro in GP.
+    destruct GP as [Glo Gro Glond Grond Gdisj GpL GpR Gshape].
+    assert (HcA : incl common A) by (intros nm H; apply common_in in H; tauto).
+    assert (HcB : incl common B) by (intros nm H; apply common_in in H; tauto).
+    destruct (getIndices_spec a Hwa common HcA) as (lki & Elk & Flk).
+    destruct (getIndices_spec b Hwb common HcB) as (rki & Erk & Frk).
+    destruct (getIndices_spec a Hwa lo Glo) as (loi & Elo & Flo).
+    destruct (getIndices_spec b Hwb ro Gro) as (roi & Ero & Fro).
+    set (LK := compose (r_p a) lki) in *. set (RK := compose (r_p b) rki) in *.
+    set (LO := compose (r_p a) loi) in *. set (RO := compose (r_p b) roi) in *.
+    (* the engine on these projectors *)
+    destruct (positional_join_spec (r_rows a) (r_rows b) (length A) (length B) LK RK LO RO) as (rows & Erows & Hndrows & Hrows);
+      try assumption.
+    { apply (F2_inrange a Hwa _ _ Flk). } { apply (F2_inrange a Hwa _ _ Flo). }
+    { apply (F2_inrange b Hwb _ _ Frk). } { apply (F2_inrange b Hwb _ _ Fro). }
+    { rewrite <- (F2_length _ _ _ Flk), <- (F2_length _ _ _ Frk). reflexivity. }
+    { unfold partial_key. destruct (_ || _) eqn:E; [|reflexivity]. exfalso.
+      apply orb_true_iff in E as [E|E]; apply andb_true_iff in E as [E1 E2]; apply negb_true_iff in E1.
+      - apply (F2_hasCommon a Hwa lo LO common LK Flo Flk) in E2 as (nm & H1 & H2).
+        assert (X : isSubProjection LK LO = true) by (apply (F2_isSub a Hwa common LK lo LO Flk Flo HcA), (GpL nm H1 H2)). congruence.
+      - apply (F2_hasCommon b Hwb ro RO common RK Fro Frk) in E2 as (nm & H1 & H2).
+        assert (X : isSubProjection RK RO = true) by (apply (F2_isSub b Hwb common RK ro RO Frk Fro HcB), (GpR nm H1 H2)). congruence. }
+    { unfold join_shape. destruct Gshape as [E|[E|[E1 E2]]].
+      - left. rewrite E in Flo. inversion Flo. reflexivity.
+      - right; left. rewrite E in Fro. inversion Fro. reflexivity.
+      - right; right. split.
+        + destruct (isSubProjection LO LK) eqn:E; [|reflexivity]. exfalso. apply E1, (F2_isSub a Hwa lo LO common LK Flo Flk Glo), E.
+        + destruct (isSubProjection RO RK) eqn:E; [|reflexivity]. exfalso. apply E2, (F2_isSub b Hwb ro RO common RK Fro Frk Gro), E. }
+    (* every resulting row has the width of the result heading *)
+    assert (Hwrows : width_is rows (length (lo ++ ro))).
+    { intros x Hx. apply Hrows in Hx as (t & u & _ & ->).
+      rewrite !app_length, !pick_length, <- (F2_length _ _ _ Flo), <- (F2_length _ _ _ Fro). reflexivity. }
+    assert (Hndlr : NoDup (lo ++ ro)) by (apply nodup_app; assumption).
+    (* the specification side *)
+    rewrite (join_data_nonempty op (abs a) (abs b) (abs_nonempty a HneA) (abs_nonempty b HneB)).
+    rewrite (abs_heading a Hwa), (abs_heading b Hwb). cbv zeta. fold A B common'.
+    (* both sides are the sorted list of the same members *)
+    assert (Hmem : forall x, In x (gen (lo ++ ro) rows) <->
+              In x (flat_map (fun t => match t with
+                                       | VTup t1 => flat_map (fun u => match u with
+                                                                       | VTup u1 => if agree common' t1 u1 then [jcombine op common' t1 u1] else []
+                                                                       | _ => []
+                                                                       end) (abs b)
+                                       | _ => []
+                                       end) (abs a))).
+    { intros x. unfold gen. rewrite vsort_in, in_map_iff. split.
+      - intros (row & <- & Hrow). pose proof (Hwrows row Hrow) as Hlen. apply Hrows in Hrow as (t & u & (Ht & Hu & Hk) & ->).
+        rewrite row_tuple_id by exact Hlen.
+        destruct (row_tuple_names A (r_p a) t HlenA) as (tA & EtA & _ & HstA & HfA).
+        destruct (row_tuple_names B (r_p b) u HlenB) as (uB & EuB & _ & HsuB & HfB).
+        apply in_flat_map. exists (VTup tA). split; [apply abs_in; exists t; split; [exact Ht | symmetry; exact EtA]|].
+        apply in_flat_map. exists (VTup uB). split; [apply abs_in; exists u; split; [exact Hu | symmetry; exact EuB]|].
+        assert (Hag : agree common' tA uB = true) by (apply (agree_keys LK RK t u tA uB Flk Frk HfA HfB), Hk).
+        rewrite Hag. left. symmetry.
+        apply (jcombine_tuple op A B (fun nm => tget nm (ra a t)) (fun nm => tget nm (ra b u)) tA uB common' HstA HsuB HfA HfB).
+        + intros nm H. apply (nocol_tget a Hwa). apply name_in_false, H.
+        + intros nm H. apply (nocol_tget b Hwb). apply name_in_false, H.
+        + intros nm H. apply name_in_iff in H. destruct (col_exists a Hwa nm H) as (c & Hc). unfold ra. rewrite (col_tget a Hwa nm c t Hc). discriminate.
+        + intros nm H. apply name_in_iff in H. destruct (col_exists b Hwb nm H) as (c & Hc). unfold ra. rewrite (col_tget b Hwb nm c u Hc). discriminate.
+        + intros nm H1 H2. apply name_in_iff in H1, H2.
+          apply (proj1 (cells_eq _ _ common _ _ (F2_cells a t common LK Hwa Flk) (F2_cells b u common RK Hwb Frk)) Hk).
+          apply common_in. split; assumption.
+        + apply common'_in.
+        + apply (F2_cells a t _ _ Hwa Flo).
+        + apply (F2_cells b u _ _ Hwb Fro).
+      - intros Hx. apply in_flat_map in Hx as (m & Hm & Hx). apply abs_in in Hm as (t & Ht & ->).
+        destruct (row_tuple_names A (r_p a) t HlenA) as (tA & EtA & _ & HstA & HfA). fold A in Hx. rewrite EtA in Hx.
+        apply in_flat_map in Hx as (m' & Hm' & Hx). apply abs_in in Hm' as (u & Hu & ->).
+        destruct (row_tuple_names B (r_p b) u HlenB) as (uB & EuB & _ & HsuB & HfB). fold B in Hx. rewrite EuB in Hx.
+        destruct (agree common' tA uB) eqn:Hag; [|destruct Hx]. destruct Hx as [<-|[]].
+        pose proof (proj1 (agree_keys LK RK t u tA uB Flk Frk HfA HfB) Hag) as Hk.
+        assert (Hrow : In (pick LO t ++ pick RO u) rows) by (apply Hrows; exists t, u; split; [split; [exact Ht | split; [exact Hu | exact Hk]] | reflexivity]).
+        exists (pick LO t ++ pick RO u). split; [|exact Hrow].
+        rewrite row_tuple_id by (apply Hwrows, Hrow).
+        apply (jcombine_tuple op A B (fun nm => tget nm (ra a t)) (fun nm => tget nm (ra b u)) tA uB common' HstA HsuB HfA HfB).
+        + intros nm H. apply (nocol_tget a Hwa). apply name_in_false, H.
+        + intros nm H. apply (nocol_tget b Hwb). apply name_in_false, H.
+        + intros nm H. apply name_in_iff in H. destruct (col_exists a Hwa nm H) as (c & Hc). unfold ra. rewrite (col_tget a Hwa nm c t Hc). discriminate.
+        + intros nm H. apply name_in_iff in H. destruct (col_exists b Hwb nm H) as (c & Hc). unfold ra. rewrite (col_tget b Hwb nm c u Hc). discriminate.
+        + intros nm H1 H2. apply name_in_iff in H1, H2.
+          apply (proj1 (cells_eq _ _ common _ _ (F2_cells a t common LK Hwa Flk) (F2_cells b u common RK Hwb Frk)) Hk).
+          apply common_in. split; assumption.
+        + apply common'_in.
+        + apply (F2_cells a t _ _ Hwa Flo).
+        + apply (F2_cells b u _ _ Hwb Fro). }
+    assert (Hgen : VSet (gen (lo ++ ro) rows) = mkset (flat_map (fun t => match t with
+                                       | VTup t1 => flat_map (fun u => match u with
+                                                                       | VTup u1 => if agree common' t1 u1 then [jcombine op common' t1 u1] else []
+                                                                       | _ => []
+                                                                       end) (abs b)
+                                       | _ => []
+                                       end) (abs a))).
+    { unfold mkset. f_equal. apply ssorted_ext; [apply vsort_sorted | apply vsort_sorted|].
+      intros x. rewrite Hmem, vsort_in. reflexivity. }
+    rewrite <- Hgen.
+    (* the implementation side *)
+    unfold join_rel. cbv zeta. fold A B. fold common. destruct (partitionNames op A B common) as [lo0 ro0] eqn:EP.
+    change lo0 with lo. change ro0 with ro. clear EP.
+    unfold relation_join. rewrite (ns_hasIntersect_false lo ro Gdisj).
+    unfold A, B in *. rewrite Elk, Erk, Elo, Ero. fold LK RK LO RO. rewrite Erows.
+    assert (Fin : rows <> [] -> exists s, JOk (finish_join lo ro rows) = JOk s /\ Ok (VSet (gen (lo ++ ro) rows)) = Ok (den s) /\ wf_jset s).
+    { intros Hne. destruct (finish_join_den lo ro rows Hndlr Hwrows Hndrows Hne) as [H1 H2].
+      eexists. split; [reflexivity|]. split; [rewrite H1; reflexivity | exact H2]. }
+    destruct rows as [|[|x0 v0] [|v1 rows']].
+    - exists JSEmpty. repeat split.
+    - exists JSTrue. split; [reflexivity|]. split; [|exact I].
+      assert (E : lo ++ ro = []) by (apply length_zero_iff_nil; symmetry; apply (Hwrows [] (or_introl eq_refl))).
+      rewrite E. reflexivity.
+    - apply Fin. discriminate.
+    - apply Fin. discriminate.
+    - apply Fin. discriminate.
+  Qed.
+End Main.
